@@ -144,7 +144,51 @@ func init() {
 			ti := types[i%len(types)]
 			cr := r.fork()
 			data := u.validBytes(cr, ti, st)
-			switch cr.intn(7) {
+			switch cr.intn(8) {
+			case 7: // a length-delimited record INSIDE a known sub-message (a sub-sub-message when there is one) whose length
+				// prefix is cut short or claims more than the enclosing payload holds; the outer frame stays intact
+				if recs, ok := u.parseRecs(ti, nil, data); ok {
+					var nested []*wrec
+					for _, x := range recs {
+						if x.hasKid && len(x.kids) > 0 {
+							nested = append(nested, x)
+						}
+					}
+					if len(nested) > 0 {
+						p := nested[cr.intn(len(nested))]
+						var cand, msgs []int
+						for j, y := range p.kids {
+							if y.typ == protowire.BytesType {
+								cand = append(cand, j)
+								if y.hasKid {
+									msgs = append(msgs, j)
+								}
+							}
+						}
+						if len(msgs) > 0 && cr.intn(4) != 0 {
+							cand = msgs
+						}
+						if len(cand) > 0 {
+							j := cand[cr.intn(len(cand))]
+							y := p.kids[j]
+							body := y.bytes
+							if y.hasKid {
+								body = serialize(y.kids)
+							}
+							inner := serialize(p.kids[:j])
+							inner = protowire.AppendTag(inner, y.num, protowire.BytesType)
+							if cr.intn(3) == 0 {
+								inner = append(inner, 0x80|byte(len(body))) // the length varint itself is cut short
+							} else {
+								inner = protowire.AppendVarint(inner, uint64(len(body)+1+cr.intn(3)))
+								inner = append(inner, body...)
+							}
+							p.hasKid, p.kids, p.bytes = false, nil, inner
+							u.decCase(out, ti, serialize(recs), "nested-length-beyond-parent")
+							continue
+						}
+					}
+				}
 			case 6: // nested unknown groups with one end marker altered, dropped or duplicated (balanced-groups clause)
 				d := append([]byte{}, data...)
 				pos := 0
